@@ -149,7 +149,11 @@ def exit_ops(i):
 
 # ------------------------------------------------------------------ texts
 
-NONASCII = ["é", "ß", "ø", "λ", "Ж", "中", "日本", "ñ", "ü", "€", "→", " ", "ı"]
+NONASCII = ["é", "ß", "ø", "λ", "Ж", "中", "日本", "ñ", "ü", "€", "→", " ", "ı",
+            # characters some library routines take for line breaks or fold specially (LSP and
+            # Fortran do not): form feed, vertical tab, separators, NEL, LS, PS; dotted capital I,
+            # long s, Kelvin sign (case-insensitive matching accepts them for i, s, k)
+            "\x0c", "\x0b", "\x1c", "\x1e", "\x85", "\u2028", "\u2029", "\u0130", "\u017f", "\u212a"]
 ASTRAL = ["\U0001F600", "\U00010348", "\U0001D11E"]
 FORTRAN_TOKENS = [
     "integer", "real", "::", "x", "y", "n", "(", ")", ",", "=", "+", "*", "call", "foo", "bar",
